@@ -618,7 +618,17 @@ def _record_assembly(ctx: Ctx) -> None:
                 k = s.targets[0].slice
                 which = repo.const(mod, k.args[1]) if len(
                     k.args) == 2 else None
-                pairs[which] = (src(k.args[0]), src(s.value))
+                val_ = s.value
+                if isinstance(val_, ast.Name):
+                    # a loop-local temporary: `lo = f.lower_bound()`
+                    dfs_ = [x for x in ast.walk(fi.node) if isinstance(
+                        x, (ast.Assign, ast.AnnAssign)) and getattr(
+                        x, "value", None) is not None and src(
+                        x.targets[0] if isinstance(x, ast.Assign)
+                        else x.target) == val_.id]
+                    if len(dfs_) == 1:
+                        val_ = dfs_[0].value
+                pairs[which] = (src(k.args[0]), src(val_))
         for which, meth in (("lowerBound", "lower_bound"),
                             ("upperBound", "upper_bound")):
             got = pairs.get(which)
@@ -629,15 +639,27 @@ def _record_assembly(ctx: Ctx) -> None:
                     f"from its own {meth}() (found {got})")
         # the objectives are instantiated for the packing's instance
         gens = [g for g in ast.walk(fi.node) if isinstance(
-            g, ast.GeneratorExp) and src(g.generators[0].iter) == objs]
+            g, (ast.GeneratorExp, ast.ListComp)) and src(
+            g.generators[0].iter) == objs]
         if not any(src(g.elt) == f"{src(g.generators[0].target)}({inst})"
                    for g in gens):
             problems.append("the objectives are not created for the "
                             "packing's instance")
         # bin bounds: key -> function(instance)
         dcs = [d for d in ast.walk(fi.node) if isinstance(d, ast.DictComp)]
+        bb_loop = None
+        for lp_ in ast.walk(fi.node):
+            if isinstance(lp_, ast.For) and isinstance(
+                    lp_.target, ast.Name) and bbs in src(lp_.iter) and len(
+                    lp_.body) == 1 and isinstance(
+                    lp_.body[0], ast.Assign) and isinstance(
+                    lp_.body[0].targets[0], ast.Subscript) and src(
+                    lp_.body[0].targets[0].slice) == lp_.target.id and src(
+                    lp_.body[0].value) == \
+                    f"{bbs}[{lp_.target.id}]({inst})":
+                bb_loop = src(lp_.body[0].targets[0].value)
         if not any(src(d.value) == f"{bbs}[{src(d.key)}]({inst})"
-                   for d in dcs):
+                   for d in dcs) and bb_loop is None:
             problems.append("the bin bounds are not `bin_bounds[key]"
                             "(instance)` under their key")
         # values: objective_values[str(objf)] = objf.evaluate(packing)
@@ -672,13 +694,17 @@ def _record_assembly(ctx: Ctx) -> None:
         if mk is None:
             problems.append("no PackingResult is created")
         else:
-            kw = {k.arg: src(k.value) for k in mk.keywords}
+            from sa.srcmodel import inline_locals as _il
+
+            def arg_src(e_: ast.expr) -> str:
+                return src(_il(fi.node, e_, keep={inst}))
+            kw = {k.arg: arg_src(k.value) for k in mk.keywords}
             # positional arguments are bound by the constructor's signature
             pinit = repo.cls(mod.name, "PackingResult").methods.get(
                 "__init__")
             for pn, a_ in zip(pinit.params[1:] if pinit is not None else [],
                               mk.args):
-                kw.setdefault(pn, src(a_))
+                kw.setdefault(pn, arg_src(a_))
             want = {"end_result": p[0], "n_items": f"{inst}.n_items",
                     "n_different_items": f"{inst}.n_different_items",
                     "bin_width": f"{inst}.bin_width",
@@ -702,8 +728,18 @@ def _record_assembly(ctx: Ctx) -> None:
                             s_, ast.Assign) else s_.target) == e[0].id]
                     if len(defs) == 1:
                         e[0] = defs[0].value
-                ok_row = isinstance(e[0], ast.DictComp) and "obounds" in \
-                    src(e[2]) and kw.get("bin_bounds") == "row[0]" and \
+                e0_ok = isinstance(e[0], ast.DictComp) or (
+                    bb_loop is not None and src(rows[0].value.elts[0])
+                    == bb_loop)
+                # the bounds mapping: the dict the lower/upper columns are
+                # stored into (any name), possibly wrapped
+                bdict = {src(s_.targets[0].value) for s_ in ast.walk(fi.node)
+                         if isinstance(s_, ast.Assign) and isinstance(
+                             s_.targets[0], ast.Subscript) and isinstance(
+                             s_.targets[0].slice, ast.Call) and src(
+                             s_.targets[0].slice.func) == "csv_scope"}
+                ok_row = e0_ok and any(b_ in src(e[2]) for b_ in bdict) \
+                    and kw.get("bin_bounds") == "row[0]" and \
                     kw.get("objective_bounds") == "row[2]"
                 if not ok_row:
                     problems.append("the cached row (bin bounds, objectives, "
